@@ -196,14 +196,29 @@ def r3(ctx: Ctx) -> None:
                 and not any(isinstance(g.nodes[x].ast, ast.Continue) for x in reach)
         ctx.ob("C14.R3", f, "a missing referenced file raises", b, ok, "exists() false -> RuntimeError, never skip")
     skips = [n for n in g.nodes if isinstance(n.ast, ast.Continue) and n.id in g.reachable()]
-    for s in skips:
-        # the only tolerated `continue`s: empty manifest path entry, duplicate data file path
-        brs = [b for b in g.nodes if b.kind == "branch" and b.id in dom[s.id]]
-        inner = brs[-1] if brs else None
-        txt = max(brs, key=lambda b: len(dom[b.id])).text if brs else ""
-        ok = txt in ("manifest_path", "file_path in seen_paths")
-        ctx.ob("C14.R3", f, "`continue` only for an empty path entry or a duplicate", s, ok,
-               f"skip condition: `{txt}`")
+    reads = ctx.calls(f, name="read_manifest_file") + ctx.calls(f, name="read_manifest_list_file")
+    read_arg_names: Set[str] = set()
+    for rc in reads:
+        read_arg_names |= {n for n in sl.origins(rc.ast.args[0] if isinstance(rc.ast, ast.Call) and rc.ast.args else None, rc.id)["names"]
+                           if "." not in n and n != "self"}
+    for s_ in skips:
+        brs = [b for b in g.nodes if b.kind == "branch" and b.id in dom[s_.id]]
+        inner = max(brs, key=lambda b: len(dom[b.id])) if brs else None
+        ok = False
+        why = inner.text if inner is not None else "?"
+        if inner is not None and isinstance(inner.ast, ast.Name) and inner.ast.id in read_arg_names:
+            ok = True  # empty path entry: nothing to read
+            why += " (empty path entry)"
+        elif inner is not None and isinstance(inner.ast, ast.Compare) and isinstance(inner.ast.ops[0], ast.In) \
+                and isinstance(inner.ast.comparators[0], ast.Name):
+            # de-duplication: `x in S` where S is a local set that receives S.add(x) on the other path
+            sname = inner.ast.comparators[0].id
+            x = norm_text(inner.ast.left)
+            adds = [c for c in g.calls() if isinstance(c.ast, ast.Call) and isinstance(c.ast.func, ast.Attribute) and c.ast.func.attr == "add"
+                    and norm_text(c.ast.func.value) == sname and c.ast.args and norm_text(c.ast.args[0]) == x]
+            ok = bool(adds)
+            why += " (duplicate of an already collected file)"
+        ctx.ob("C14.R3", f, "`continue` only for an empty path entry or a duplicate", s_, ok, f"skip condition: `{why}`")
 
 
 def r4(ctx: Ctx) -> None:
